@@ -29,6 +29,7 @@ type wcase struct {
 	LZ    lzma.WriterConfig
 	L2    lzma.Writer2Config
 	Feat  string
+	Tail  int // > 0: thinned fault positions for a history with thousands of similar sink calls
 }
 
 type wresult struct {
@@ -190,6 +191,13 @@ func c09WriterCases(c *ev.Ctx) []wcase {
 		out = append(out, wcase{ID: fmt.Sprintf("xzblocks%d", i), Kind: "xz", Data: d, Parts: parts,
 			XZ: xz.WriterConfig{DictCap: []int{4096, 65536}[i], BlockSize: bs, CheckSum: xz.CRC32}, Feat: fmt.Sprintf("xz, multi-chunk blocks of %d bytes, writes crossing block ends", bs)})
 	}
+	// more than a thousand blocks: the index written by Close is larger than any buffer a
+	// writer might collect it in; fault positions: all sink calls of Close, a sample before
+	// (binary tree matcher: its tables are small; the hash table matcher clears half a
+	// megabyte per block)
+	many := gen.Data(r, "random", 1100*128)
+	out = append(out, wcase{ID: "xzmanyblocks", Kind: "xz", Data: many, Parts: []int{len(many)}, Tail: 1400,
+		XZ: xz.WriterConfig{DictCap: 4096, BlockSize: 128, CheckSum: xz.CRC32, Matcher: lzma.BinaryTree}, Feat: "xz, 1100 blocks, index of more than 4 KiB"})
 	out = append(out, wcase{ID: "xzbig2m", Kind: "xz", Data: big, Parts: []int{1<<21 - 5, 5, 3000}, XZ: xz.WriterConfig{DictCap: 65536}, Feat: "xz, chunk at the 2 MiB limit"})
 	return out
 }
@@ -245,7 +253,12 @@ func checkC09(c *ev.Ctx) {
 		K := dry.Calls
 		c.Count("writer_sink_calls_total", int64(K))
 		for k := 0; k < K; k++ {
-			if k >= 3000 && k%61 != 0 {
+			if w.Tail > 0 {
+				// all of the last 40 calls, every 23rd of the last Tail calls, every 97th before
+				if !(k >= K-40 || (k >= K-w.Tail && k%23 == 0) || k%97 == 0) {
+					continue
+				}
+			} else if k >= 3000 && k%61 != 0 {
 				continue
 			}
 			for m := 0; m < 4; m++ {
@@ -273,7 +286,7 @@ func checkC09(c *ev.Ctx) {
 	c.Set("writer_cases", len(wcases))
 	c.Set("reader_cases", len(rcases))
 	c.Exhaustive(true)
-	c.Set("exhaustive_part", "fault positions per case (all sink calls / all source offsets, except byte-writer sinks beyond call 3000 which are thinned to every 61st); the case list is a sample")
+	c.Set("exhaustive_part", "fault positions per case (all sink calls / all source offsets, except byte-writer sinks beyond call 3000 which are thinned to every 61st and the 1100-block case where the last 40 calls, every 23rd call of Close and every 97th earlier call are taken); the case list is a sample")
 	par(len(jobs), func(i int) {
 		j := jobs[i]
 		if j.w != nil {
